@@ -104,7 +104,6 @@ def run(res, tier):
             for o, s in itertools.product(outsteps, saves):
                 cfgs.append(dict(outstep=o, save=s, track=None, verbose=(o + s) % 2, name="a", renorm=renorm, rf="linear", imp=imp, n=16, mod=0, start=0, x=x))
     if vlib.deep(tier):     # thorough: every PAIR of the rarely used options as a physics key of its own (a reduced cadence set)
-        global XTRA
         n1 = len(XTRA)
         for i in range(1, n1):
             for j in range(i + 1, n1):
